@@ -331,14 +331,20 @@ func init() {
 					name   string
 					notary bool
 					n      int
-				}{{"neofs-gas-notary-n1", true, 1}, {"neofs-gas-notary-n3", true, 3}, {"neofs-gas-notary-n4", true, 4}, {"neofs-gas-legacy-n1", false, 1}, {"neofs-gas-legacy-n2", false, 2}, {"neofs-gas-legacy-n4", false, 4}} {
+				}{{"neofs-gas-notary-n1", true, 1}, {"neofs-gas-notary-n3", true, 3}, {"neofs-gas-notary-n4", true, 4}, {"neofs-gas-legacy-n1", false, 1}, {"neofs-gas-legacy-n2", false, 2}, {"neofs-gas-legacy-n4", false, 4},
+					{"neofs-gas-legacy-n4-votes", false, 4}} {
 					o := Options{Property: "C19", Tier: tier, Seed: seed, Workers: Workers(), Depth: 4, ConfCap: 40, Deadline: 8 * time.Minute}
 					if tier == "thorough" {
 						o.Depth, o.ConfCap, o.Deadline = 6, 200, 60*time.Minute
 					}
+					mk := mkG(p.notary, p.n)
+					if strings.HasSuffix(p.name, "-votes") {
+						n := p.n
+						mk = func() Driver { return NewGasVotesDriver(n) }
+						o.Depth += 3 // seven operations only
+					}
 					o.Depth = EnvInt("VERIF_DEPTH", o.Depth)
 					o.Params = map[string]any{"depth": o.Depth, "tier": tier, "part": p.name}
-					mk := mkG(p.notary, p.n)
 					st := Explore(mk, o, kf)
 					Conformance(mk, st, o)
 					per[p.name] = map[string]any{"states": st.States, "transitions": st.Transitions, "completed_depth": st.CompletedDepth, "conformance": st.ConfValidated}
@@ -364,10 +370,16 @@ func init() {
 				switch rf.Driver {
 				case "neofs-gas-notary-n1":
 					mk = mkG(true, 1)
+				case "neofs-gas-notary-n3":
+					mk = mkG(true, 3)
 				case "neofs-gas-notary-n4":
 					mk = mkG(true, 4)
 				case "neofs-gas-legacy-n1":
 					mk = mkG(false, 1)
+				case "neofs-gas-legacy-n2":
+					mk = mkG(false, 2)
+				case "neofs-gas-legacy-n4-votes":
+					mk = func() Driver { return NewGasVotesDriver(4) }
 				default:
 					mk = mkG(false, 4)
 				}
